@@ -1107,12 +1107,13 @@ fn get_mean(raw_output_buffer: &Vec<HashMap<String, String>>, buffer_key: &Strin
 }
 
 /// Get the sum of all values in the buffer, based on the buffer key.
-/// If the value can't be parsed as usize, it will be ignored.
-fn get_buffer_sum(raw_output_buffer: &Vec<HashMap<String, String>>, buffer_key: &String) -> usize {
+/// If the value can't be parsed as an integer, it will be ignored.
+/// Values may be negative (`sum(size - 100)`); the sum does not wrap at 64 bits.
+fn get_buffer_sum(raw_output_buffer: &Vec<HashMap<String, String>>, buffer_key: &String) -> i128 {
     let mut sum = 0;
     for value in raw_output_buffer {
         if let Some(value) = value.get(buffer_key) {
-            if let Ok(value) = value.parse::<usize>() {
+            if let Ok(value) = value.parse::<i128>() {
                 sum += value;
             }
         }
